@@ -888,6 +888,18 @@ func checkCase(c Case, r *rng.R) (fails []failure, trivial bool) {
 			}
 		}
 	}
+	collision := false
+	seenTrace := map[string]bool{}
+	for _, f := range files {
+		rt := f.Header.ImmediateOrigin + ">" + f.Header.ImmediateDestination
+		for _, bt := range f.Batches {
+			for _, e := range bt.GetEntries() {
+				k := rt + "|" + hkeyOf(bt.GetHeader()) + "|" + e.TraceNumber
+				collision = collision || seenTrace[k]
+				seenTrace[k] = true
+			}
+		}
+	}
 	out, merr, p := mergeGuarded(files, c)
 	if p != nil {
 		put("merge:panic", fmt.Sprint(p))
@@ -933,6 +945,9 @@ func checkCase(c Case, r *rng.R) (fails []failure, trivial bool) {
 				if c.validated() && e.TraceNumber != in.trace {
 					put("opts:trace-changed", fmt.Sprintf("entry %d: trace number %s became %s although its batch was valid under the stored options", id, in.trace, e.TraceNumber))
 				}
+			}
+			if !collision && !subset(keyBits[rt+"|"+hkeyOf(bt.GetHeader())], bitsOf(bo)) {
+				put("opts:batch-incomplete-without-collision", fmt.Sprintf("no trace numbers collide, yet an output batch lacks an option of an input batch with its routing pair and header key: has %s", optToken(bo)))
 			}
 			if !subset(bitsOf(bo), keyBits[rt+"|"+hkeyOf(bt.GetHeader())]) {
 				put("opts:batch-invented", fmt.Sprintf("an output batch holds an option no input batch of its routing pair and header key was validated with: %s", optToken(bo)))
